@@ -58,12 +58,17 @@ Theorem C04_unblind : forall (pubk : Z -> Z) (ecdh : Z -> Z -> Z) (p : profile),
     (forall i o, nth_error (t_out t) i = Some o -> marked o = false -> nth_error (t_out t') i = Some o).
 Proof. intros pubk ecdh p S t spent ss rnd. exact (blind_unblinds pubk ecdh p S t spent ss rnd). Qed.
 
-(* finding F12: with NO output marked, Transaction::blind panics (`expect("Internal output calculation error")`); the error
-   BlindError::TooFewBlindingOutputs that exists for this situation is never returned *)
-Theorem C04_no_marked_panics : forall (pubk : Z -> Z) (ecdh : Z -> Z -> Z) p rnd ss t,
+(* with NO output marked, Transaction::blind returns BlindError::TooFewBlindingOutputs (repair 8d5600e of finding F12; it used
+   to panic at `expect("Internal output calculation error")`) ... *)
+Theorem C04_no_marked_error : forall (pubk : Z -> Z) (ecdh : Z -> Z -> Z) p rnd ss t,
   explicit_positive t -> existsb marked (t_out t) = false -> Forall in_zn rnd ->
-  blind pubk ecdh p rnd ss t = OPanic PNoLastOutput.
-Proof. exact blind_none_marked_panics. Qed.
+  blind pubk ecdh p rnd ss t = OFail BTooFewBlindingOutputs.
+Proof. exact blind_none_marked_error. Qed.
+(* ... and it never panics there, whatever the transaction and the randomness: the outcome is one of the two documented errors *)
+Theorem C04_no_marked_never_panics : forall (pubk : Z -> Z) (ecdh : Z -> Z -> Z) p rnd ss t,
+  existsb marked (t_out t) = false ->
+  blind pubk ecdh p rnd ss t = OFail BTooFewBlindingOutputs \/ blind pubk ecdh p rnd ss t = OFail BMustHaveAllExplicitTxOuts.
+Proof. exact blind_none_marked_never_panics. Qed.
 
 (* ------------------------------------------------------------------ non-vacuity: a concrete balanced transaction
    2 inputs (explicit asset 1 / amount 100; confidential asset 2 / amount 50 with an explicit issuance of 30 units of asset 9),
@@ -113,10 +118,10 @@ Example C04_example_run :
                      /\ option_map (fun o => unblind ex_ecdh o 12) (nth_error (t_out t') 3) = Some (OVal (mkSec 2 24 50 25))
   | _ => False end.
 Proof. vm_compute. repeat split; reflexivity. Qed.
-(* finding F12 on a concrete witness: the same balanced transaction with no output marked *)
-Theorem C04_no_marked_refuted : exists t ss rnd,
+(* the former F12 witness: the same balanced transaction with no output marked now yields the error *)
+Example C04_no_marked_example : exists t ss rnd,
   explicit_positive t /\ balanced_per_asset ss t /\ existsb marked (t_out t) = false
-  /\ blind ex_pubk ex_ecdh Debug rnd ss t = OPanic PNoLastOutput.
+  /\ blind ex_pubk ex_ecdh Debug rnd ss t = OFail BTooFewBlindingOutputs.
 Proof.
   exists (mkTx [ex_in0; ex_in1] (ex_outs NNull NNull NExp)), ex_ss, ex_rnd. split; [|split; [|split]].
   - repeat constructor; eexists _, _; (split; [reflexivity|]); (split; [reflexivity|]); (split; [split; reflexivity|]); intro; discriminate.
@@ -150,12 +155,12 @@ Check (C04_unblind : forall (pubk : Z -> Z) (ecdh : Z -> Z -> Z) (p : profile),
          forall rsk, o_nonce o = NConf (pubk rsk) -> unblind ecdh o' rsk = OVal (mkSec a abf v vbf)) /\
     (forall i x, In (i, x) bl -> exists o, nth_error (t_out t) i = Some o /\ marked o = true) /\
     (forall i o, nth_error (t_out t) i = Some o -> marked o = false -> nth_error (t_out t') i = Some o)).
-Check (C04_no_marked_panics : forall (pubk : Z -> Z) (ecdh : Z -> Z -> Z) p rnd ss t,
-  explicit_positive t -> existsb marked (t_out t) = false -> Forall in_zn rnd ->
-  blind pubk ecdh p rnd ss t = OPanic PNoLastOutput).
+Check (C04_no_marked_never_panics : forall (pubk : Z -> Z) (ecdh : Z -> Z -> Z) p rnd ss t,
+  existsb marked (t_out t) = false ->
+  blind pubk ecdh p rnd ss t = OFail BTooFewBlindingOutputs \/ blind pubk ecdh p rnd ss t = OFail BMustHaveAllExplicitTxOuts).
 Print Assumptions C04_last_vbf_formula.
 Print Assumptions C04_last_balances.
 Print Assumptions C04_blind_verifies.
 Print Assumptions C04_unblind.
-Print Assumptions C04_no_marked_panics.
-Print Assumptions C04_no_marked_refuted.
+Print Assumptions C04_no_marked_error.
+Print Assumptions C04_no_marked_never_panics.
